@@ -44,6 +44,7 @@ def run(tier):
     from .common import Relabel
     c20._b_keyed_state(Relabel(chk, {"C20.b": "C09.a-cache"}), c20._sites(), only_classes={"_CenterManifoldDynamicsService"})
     c20._e_invalidation(Relabel(chk, {"C20.e": "C09.a-cache"}), c20._sites(), only_classes={"_CenterManifoldDynamicsService"})
+    c20._e_lazy_slots(Relabel(chk, {"C20.e": "C09.a-cache"}), only_classes={"_CenterManifoldDynamicsService"})
     _a_chains(chk)
     _a_series(chk)
     _a_configure(chk)
